@@ -31,6 +31,7 @@ func runC03(p *eng.Prog, r *eng.Report, tier string) {
 	c03Decode(c)
 	c03Chain(c)
 	c03AdvertisedIsAccepted(c, "C03.11")
+	c03SelectionPerRequest(c, "C03.12")
 	// the SASL feature value is shared by every session that uses it: what one
 	// session's Parse saw (the mechanisms its server offered) must not be kept
 	// in, or alias, state that another session's Parse overwrites
@@ -353,4 +354,86 @@ func c03AdvertisedIsAccepted(c *cx, id string) {
 		})
 	}
 	c.r.Floor(id, "advertisement loops over the configured mechanisms", n, 1)
+}
+
+// c03SelectionPerRequest (C03.12): the receiver's exchange loop handles any
+// number of <auth/> elements; the mechanism selected for one of them is found
+// by a search over the configured mechanisms that stores a hit in a variable
+// declared outside the loop. That variable is cleared in every iteration of
+// the exchange loop before the search starts (or is declared inside it):
+// otherwise an <auth/> that names an unoffered mechanism inherits the
+// selection of an earlier <auth/> and is carried on with it instead of being
+// refused with <invalid-mechanism/>.
+func c03SelectionPerRequest(c *cx, id string) {
+	f := c.fn(id, "", "negotiateServer")
+	if f == nil {
+		return
+	}
+	g := f.Graph()
+	n := 0
+	f.WalkBody(func(nd ast.Node) bool {
+		rs, ok := nd.(*ast.RangeStmt)
+		if !ok {
+			return true
+		}
+		if t, ok := f.Info().TypeOf(rs.X).Underlying().(*types.Slice); !ok || eng.TypeStr(t.Elem()) != "mellium.im/sasl.Mechanism" {
+			return true
+		}
+		vid, _ := rs.Value.(*ast.Ident)
+		if vid == nil {
+			return true
+		}
+		vo := f.Info().ObjectOf(vid)
+		// the variable that receives a hit
+		var hit *types.Var
+		for _, w := range f.Writes() {
+			if !nodeContains(rs.Body, w.Stmt) || w.RHS == nil {
+				continue
+			}
+			if rid, ok := ast.Unparen(w.RHS).(*ast.Ident); ok && f.Info().ObjectOf(rid) == vo {
+				hit = rootLocal(f, w.LHS)
+			}
+		}
+		if hit == nil {
+			return true
+		}
+		n++
+		// the enclosing loop of the exchange
+		var outer ast.Stmt
+		for par := g.Parent(rs); par != nil; par = g.Parent(par) {
+			if fs, ok := par.(*ast.ForStmt); ok {
+				outer = fs
+				break
+			}
+		}
+		_, rp, _, okh := g.LoopPoints(rs)
+		if !okh {
+			c.r.Unresolved(id, "search loop over the configured mechanisms in negotiateServer")
+			return true
+		}
+		if outer == nil {
+			c.r.Check(id, f, "selection variable "+hit.Name()+" cleared per request", "the search runs inside the exchange loop", rs.Pos(), false, "no enclosing loop found")
+			return true
+		}
+		declaredInside := hit.Pos() >= outer.Pos() && hit.Pos() < outer.End()
+		body, _, _, okp := g.LoopPoints(outer)
+		isReset := func(q eng.Point, x ast.Node) bool {
+			as, ok := x.(*ast.AssignStmt)
+			if !ok || len(as.Lhs) != 1 || len(as.Rhs) != 1 {
+				return false
+			}
+			if rootLocal(f, as.Lhs[0]) != hit {
+				return false
+			}
+			if _, isSel := ast.Unparen(as.Lhs[0]).(*ast.Ident); !isSel {
+				return false
+			}
+			cl, isLit := ast.Unparen(as.Rhs[0]).(*ast.CompositeLit)
+			return isLit && len(cl.Elts) == 0
+		}
+		okr := declaredInside || (okp && g.MustPassBefore(body, eng.Point{B: rp.B, I: rp.I}, isReset, nil))
+		c.r.Check(id, f, "selection variable cleared per request", "O: between the start of an iteration of the exchange loop and the search over the configured mechanisms the variable that receives the hit is reset to its zero value (or it is declared inside the loop)", rs.Pos(), okr, "the selection of an earlier <auth/> survives into this one: a mechanism that was not offered is carried on with the stale selection")
+		return true
+	})
+	c.r.Floor(id, "mechanism searches in negotiateServer", n, 1)
 }
